@@ -6,7 +6,8 @@
    The growth policy that decides the sizes asked for is C08's capacity model (VecCap.v).
    PARTIAL: iterator size hints and the helpers built on top are exercised on the implementation. *)
 From Coq Require Import ZArith List.
-From BS Require Import Word BumpSpec ChunkSpec Arena ArenaInv ArenaExt ArenaInv2 ArenaFill ArenaRegrow.
+From BS Require Import Word BumpSpec ChunkSpec Arena ArenaInv ArenaExt ArenaInv2 ArenaFill ArenaRegrow AllocRefine.
+From BS.gen Require AllocSites.
 Import ListNotations.
 Open Scope Z_scope.
 
@@ -131,6 +132,14 @@ Theorem C15_regrow_copy_frame :
   forall (m : memory) src dst bytes x, ~ (dst <= x < dst + bytes) -> mem_copy m src dst bytes x = m x.
 Proof. exact regrow_copy_frame. Qed.
 
+(* where the position goes when a typed prepared slice is committed: RawChunk::set_pos_addr_and_align_from of the CURRENT source
+   (cut out and translated on every run) is the model's commit_pos - re-align in bump direction exactly when the element
+   alignment is below the minimum alignment *)
+Theorem C15_source_commit_position_is_the_models :
+  forall (c : cfg) m ea x, valid_min_align m -> 0 <= x -> x + m - 1 < W ->
+  AllocSites.commit_pos_from (up c) m x ea = Ok (commit_pos c m ea false x).
+Proof. exact commit_pos_refines. Qed.
+
 Print Assumptions C15_prepare_keeps_positions.
 Print Assumptions C15_prepare_preserves_invariant.
 Print Assumptions C15_commit_preserves_invariant.
@@ -147,3 +156,4 @@ Print Assumptions C15_reshape_inside.
 Print Assumptions C15_regrow_same_chunk_overlaps.
 Print Assumptions C15_regrow_copy_keeps_contents.
 Print Assumptions C15_regrow_copy_frame.
+Print Assumptions C15_source_commit_position_is_the_models.
